@@ -96,8 +96,35 @@ TIES = {
     "C13": ["Gcs"], "C14": ["Gcs"], "C15": ["HD"], "C16": [], "C17": ["Amount"], "C18": [], "C19": [],
     "C20": ["Locking", "GcsImmutable"],
 }
+# state-footprint ties (Bch/Tie/State*.lean): the model of each source group has exactly the state the code has
+STATE_TIES = {
+    "C01": ["StateAddr", "StateBase58"], "C02": ["StateAddr", "StateBase58"], "C03": ["StateAddr", "StateBech32"],
+    "C04": ["StateHD", "StateBase58"], "C05": ["StateHD", "StateBase58"], "C15": ["StateHD"],
+    "C06": ["StateWif", "StateBase58"], "C07": ["StateBase58", "StateBech32"],
+    "C08": ["StateAddr", "StateWif", "StateBase58", "StateBech32", "StateHD", "StateBloom", "StateMerkle", "StateGcs", "StateBlock"],
+    "C09": ["StateBloom", "Locking"], "C10": ["StateBloom", "Locking"], "C20": ["StateBloom", "StateGcs"],
+    "C11": ["StateMerkle", "StateBloom"], "C12": ["StateMerkle"],
+    "C13": ["StateGcs", "StateGcsBuilder"], "C14": ["StateGcs", "StateGcsBuilder"],
+    "C16": ["StateBlock"], "C17": ["StateAmount"], "C18": ["StateTxsort"], "C19": ["StateCoinset"],
+}
+for _k, _v in STATE_TIES.items():
+    TIES[_k] = TIES[_k] + [t for t in _v if t not in TIES[_k]]
 for _k, _v in TIES.items():
     PROPS[_k]["ties"] = _v
+
+# Properties that rest on the same model also share their correspondence streams: a disagreement between the model
+# and the code found by the generator of a sibling property unties this property's theorems from the code as well
+# (e.g. an aliasing defect between sibling extended keys shows in C15's histories and invalidates the C04 model).
+SHARED = {
+    "C01": ["C02"], "C02": ["C01"], "C03": ["C02"],
+    "C04": ["C15", "C05"], "C05": ["C04", "C15"], "C15": ["C04", "C05"],
+    "C08": ["C09", "C12", "C13"],
+    "C09": ["C10", "C20"], "C10": ["C09"], "C20": ["C09"],
+    "C11": ["C12"], "C12": ["C11"],
+    "C13": ["C14"], "C14": ["C13"],
+}
+for _k, _v in SHARED.items():
+    PROPS[_k]["shared_streams"] = _v
 
 # C03: the two finite independence enumerations are evaluated by compiled code (native_decide), see DESIGN section 3
 PROPS["C03"]["allow_axiom_regex"] = r"^Bch\.Proofs\.C03Enum\.(cashaddr|bech32)_slices\._native\.native_decide\.ax_"
